@@ -746,3 +746,91 @@ pub fn c04_cmd_pack() {
     assert!(rw[0] == (q.a % 256) as u8 && rw[1] == (q.a / 256) as u8);
     assert!(rw[2] == (q.r % 256) as u8 && rw[3] == (q.r / 256) as u8);
 }
+
+// ---- edge cases added after seeded changes S31 / S32 ---------------------------------------------
+
+//@ harness: c04_fill_rest_exact_overhead
+//@ property: C04
+//@ tier: quick
+//@ unwind: 34
+//@ timeout: 900
+//@ functions: CreatedFrame::push_pdu_slice_rest; CreatedFrame::push_pdu; CreatedFrame::mark_sendable; SendableFrame::send_blocking
+//@ bounds: frames with EXACTLY one datagram overhead (12 bytes) of room left: an empty 28-byte frame, and a 44-byte frame after a push of 4 data bytes; fill-the-rest push of 0..=4 symbolic bytes must report that nothing fits (None), add no datagram and leave the frame as it was
+//@ stubs: embassy_time_driver::now -> support::vnow; embassy_time_driver::schedule_wake -> no-op
+#[kani::proof]
+#[kani::unwind(34)]
+#[kani::stub(embassy_time_driver::now, crate::verif::support::vnow)]
+#[kani::stub(embassy_time_driver::schedule_wake, crate::verif::support::vschedule_wake)]
+pub fn c04_fill_rest_exact_overhead() {
+    if kani::any() {
+        setup!(storage, tx, pdu_loop, f, exp, t, 28);
+        let r = step_rest::<28, 4>(&mut f, &mut exp, &mut t);
+        assert!(r.is_none());
+        kani::cover!(true);
+        check_consumed::<28>(&f, &exp);
+    } else {
+        let storage: PduStorage<1, 44> = PduStorage::new();
+        let (mut tx, _rx, pdu_loop) = storage.try_split().unwrap();
+        let mut f = pdu_loop.alloc_frame().unwrap();
+        let d4: [u8; 4] = kani::any();
+        let h1 = f.push_pdu(Command::fpwr(kani::any(), kani::any()).into(), d4, None).unwrap();
+        // 28 bytes of room - 16 used = exactly one datagram overhead left
+        let extra: [u8; 4] = kani::any();
+        let n: usize = kani::any();
+        kani::assume(n >= 1 && n <= 4);
+        let r = f.push_pdu_slice_rest(Command::lrw(kani::any()).into(), &extra[..n]);
+        assert!(matches!(r, Ok(None)));
+        let fut = f.mark_sendable(&pdu_loop, pdu_timeout(), 0);
+        let sendable = tx.next_sendable_frame().unwrap();
+        let _ = sendable.send_blocking(|b| {
+            // still exactly the one datagram, marked as the last one
+            assert!(b.len() == 16 + 16);
+            assert!(u16::from_le_bytes([b[14], b[15]]) == (16 | 0x1000));
+            assert!(b[17] == h1.pdu_idx && u16::from_le_bytes([b[22], b[23]]) == 4);
+            assert!(b[26] == d4[0] && b[29] == d4[3] && b[30] == 0 && b[31] == 0);
+            kani::cover!(true);
+            Ok(b.len())
+        });
+        core::mem::forget(fut);
+    }
+}
+
+//@ harness: c04_more_follows_long
+//@ property: C04
+//@ tier: quick
+//@ unwind: 6
+//@ timeout: 900
+//@ functions: CreatedFrame::push_pdu; PduFlags::pack; PduFlags::unpack_from_slice; CreatedFrame::mark_sendable; SendableFrame::send_blocking
+//@ bounds: 320-byte frame; first datagram with a requested length of 256..=276 bytes (symbolic, via the length override, so the length field uses bits 8..10), second datagram of 0 bytes: the first datagram's length/flags word must be len | more-follows, the second's plain; only the two header words and the frame length are compared (not all 320 bytes)
+//@ stubs: embassy_time_driver::now -> support::vnow; embassy_time_driver::schedule_wake -> no-op
+#[kani::proof]
+#[kani::unwind(6)]
+#[kani::stub(embassy_time_driver::now, crate::verif::support::vnow)]
+#[kani::stub(embassy_time_driver::schedule_wake, crate::verif::support::vschedule_wake)]
+pub fn c04_more_follows_long() {
+    let storage: PduStorage<1, 320> = PduStorage::new();
+    let (mut tx, _rx, pdu_loop) = storage.try_split().unwrap();
+    let mut f = pdu_loop.alloc_frame().unwrap();
+    let l: u16 = kani::any();
+    kani::assume(l >= 256 && l <= 276);
+    let h1 = f.push_pdu(Command::fprd(kani::any(), kani::any()).into(), (), Some(l)).unwrap();
+    let h2 = f.push_pdu(Command::brd(kani::any()).into(), (), None).unwrap();
+    assert!(h2.pdu_idx == h1.pdu_idx.wrapping_add(1));
+    let fut = f.mark_sendable(&pdu_loop, pdu_timeout(), 0);
+    let sendable = tx.next_sendable_frame().unwrap();
+    let ul = usize::from(l);
+    let _ = sendable.send_blocking(|b| {
+        assert!(b.len() == 16 + 12 + ul + 12);
+        // EtherCAT header: length of everything after it, type 1
+        assert!(u16::from_le_bytes([b[14], b[15]]) == ((12 + l + 12) | 0x1000));
+        // first datagram: full 11-bit length kept, more-follows set
+        assert!(u16::from_le_bytes([b[22], b[23]]) == (l | 0x8000));
+        // second (last) datagram: length 0, no flags
+        let o = 16 + 12 + ul;
+        assert!(b[o + 1] == h2.pdu_idx);
+        assert!(u16::from_le_bytes([b[o + 6], b[o + 7]]) == 0);
+        kani::cover!(l == 276);
+        Ok(b.len())
+    });
+    core::mem::forget(fut);
+}
